@@ -177,6 +177,42 @@ func (r *rw) rewriteFile() {
 			x.Sel = id("RandRead")
 			r.count("rand.Read")
 		}
+		if name, ok := isPkgSel(x, "signal"); ok && name == "Notify" {
+			x.X = id("simrt")
+			x.Sel = id("SignalNotify")
+			r.count("signal.Notify")
+		}
+		if name, ok := isPkgSel(x, "godbg"); ok && name == "SignalTrace" {
+			x.X = id("simrt")
+			x.Sel = id("Nop")
+			r.count("godbg.SignalTrace")
+		}
+		return true
+	})
+	// the listener: (*http.Server).ListenAndServe[TLS] and Shutdown
+	ast.Inspect(r.file, func(n ast.Node) bool {
+		call, ok := n.(*ast.CallExpr)
+		if !ok {
+			return true
+		}
+		se, ok := call.Fun.(*ast.SelectorExpr)
+		if !ok {
+			return true
+		}
+		tv, ok := r.info.Types[se.X]
+		if !ok || tv.Type == nil || tv.Type.String() != "*net/http.Server" {
+			return true
+		}
+		switch se.Sel.Name {
+		case "ListenAndServe", "ListenAndServeTLS":
+			call.Fun = &ast.SelectorExpr{X: id("simrt"), Sel: id("HTTPListenAndServe")}
+			call.Args = []ast.Expr{se.X}
+			r.count("http.ListenAndServe")
+		case "Shutdown":
+			call.Fun = &ast.SelectorExpr{X: id("simrt"), Sel: id("HTTPShutdown")}
+			call.Args = append([]ast.Expr{se.X}, call.Args...)
+			r.count("http.Shutdown")
+		}
 		return true
 	})
 	ast.Inspect(r.file, func(n ast.Node) bool {
@@ -512,7 +548,7 @@ func pruneImports(f *ast.File) {
 			if is.Name != nil {
 				name = is.Name.Name
 			}
-			if name == "_" || name == "." || used[name] || (p != "sync" && p != "os" && p != "time" && p != "crypto/rand") {
+			if name == "_" || name == "." || used[name] || (p != "sync" && p != "os" && p != "time" && p != "crypto/rand" && p != "os/signal" && !strings.HasSuffix(p, "/internal/godbg")) {
 				keep = append(keep, s)
 			}
 		}
